@@ -19,7 +19,7 @@ def helper_terms(ctx, modname, fname, atomic_extra=()):
     ref = ctx.repo.mod(modname).func(fname)
     ctx.fn(ref.qualname)
     ex = P.Extractor(ctx.repo, atomic=set(U.ATOMIC) | set(atomic_extra))
-    rets = ex.function(ref)
+    rets = P.flat_rets(U.unwrap_delegation(ex.function(ref)))
     return ref, rets
 
 
@@ -166,7 +166,7 @@ def _url_helper(ctx, rule, name, ref, rets, site, final_call, n):
     except Raised as e:
         ok, msg = False, "%s raises %s on an unparseable url instead of returning None" % (name, e.name)
     except Unknown:
-        exc = [r for r in rets if r.kind == "return" and any(c[0] == "raises" for c, pol in r.conds)]
+        exc = [r for r in rets if r.kind == "return" and F.exception_path(r.conds)]
         ok, msg = bool(exc) and all(r.term == ("const", None) for r in exc), "%s does not return None for an unparseable url" % name
     ctx.ob(rule, name + "/unparseable-gives-None", ok, msg, site, witness="http://[::1/x")
 
@@ -245,7 +245,7 @@ def stems_variants(ctx, rule, string_forms=True):
     nref, nex, nrets = U.extract(ctx, "normalize_url", "normalize_url")
     nret, nt = U.split_result(ctx, nrets, "normalize_url")
     for r in nrets:
-        if r.kind != "return" or r.term == nt or any(c[0] == "raises" for c, pol in r.conds):
+        if r.kind != "return" or r.term == nt or F.exception_path(r.conds):
             continue
         uns = [x for x in P.subterms(r.term) if x[0] == "call" and x[1] == "urllib.parse.urlunsplit"]
         ok = bool(uns) and all(x[2] and x[2][0] == nt for x in uns)
@@ -283,8 +283,8 @@ def get_hostname(ctx, rule):
     ex = P.Extractor(repo, atomic=set())
     rets = ex.function(ref)
     site = gh.site(ref.node)
-    normal = [r for r in rets if r.kind == "return" and not any(c[0] == "raises" for c, pol in r.conds)]
-    exc = [r for r in rets if r.kind == "return" and any(c[0] == "raises" for c, pol in r.conds)]
+    normal = [r for r in rets if r.kind == "return" and not F.exception_path(r.conds)]
+    exc = [r for r in rets if r.kind == "return" and F.exception_path(r.conds)]
     sref = repo.mod("utils").func("safe_urlsplit")
     want = P.strip_inl(("attr", ex.result_term(ex.function(sref, [("param", "url"), ("const", "http")], {})), "hostname"))
     want = F.resolve_under(want, lambda c: None)
